@@ -157,9 +157,9 @@ func c09Peer(entries []jEntry) (sig, what string, compared int, outside bool) {
 		if e.Status == "ok" && e.InModel {
 			switch e.Op.Op {
 			case "sld":
-				key := "offer"
-				if e.Op.Ty == "answer" {
-					key = "answer"
+				key := "answer" // pranswer and answer both apply the last created answer
+				if e.Op.Ty == "offer" {
+					key = "offer"
 				}
 				if d := lastCreated[key]; d != nil {
 					a := c09Applied{what: "local " + key}
@@ -240,7 +240,7 @@ func c09Run(c jCase) (V, Verdict) {
 
 func c09Corpus() []jCase {
 	sec := func(k, m, d string) jSec { return jSec{Kind: k, Mid: m, Dir: d, Codec: true} }
-	return []jCase{
+	return append([]jCase{
 		// the C06 witness: the appended data section reuses the remote's mid "1"
 		{Peers: 1, Ops: []jOp{
 			{Op: "srd", Ty: "offer", Desc: &jDesc{Secs: []jSec{sec("audio", "1", "sendrecv")}, Group: jStr("BUNDLE 1")}},
@@ -277,7 +277,7 @@ func c09Corpus() []jCase {
 			{P: 0, Op: "stop", Idx: 1}, {P: 0, Op: "add", Kind: "audio", Dir: "sendonly"},
 			{P: 0, Op: "offer"}, {P: 0, Op: "sld", Ty: "offer"}, {P: 1, Op: "srdpeer", Ty: "offer"},
 			{P: 1, Op: "answer"}, {P: 1, Op: "sld", Ty: "answer"}, {P: 0, Op: "srdpeer", Ty: "answer"}}},
-	}
+	}, jCorpusOps()...)
 }
 
 func init() {
